@@ -156,9 +156,14 @@ def explore(harness, cfg, known=(), workers=None, deadline_s=None, max_paths=Non
             info["exhaustive"] = not total.errors
         info["wall_s"] = time.time() - t0
         return total, info
-    ctx = mp.get_context("fork")
-    with ctx.Pool(workers) as pool:
-        inflight = []
+    from concurrent.futures import FIRST_COMPLETED, ProcessPoolExecutor, wait
+    from concurrent.futures.process import BrokenProcessPool
+
+    ex = ProcessPoolExecutor(max_workers=workers, mp_context=mp.get_context("fork"))
+    stall_s = float(os.environ.get("VERIF_STALL_S", "900"))
+    try:
+        inflight = set()
+        last_progress = time.time()
         while work or inflight:
             if deadline_s and time.time() - t0 > deadline_s:
                 info["truncated"] = "deadline"
@@ -172,20 +177,36 @@ def explore(harness, cfg, known=(), workers=None, deadline_s=None, max_paths=Non
             while work and len(inflight) < workers * 3:
                 p = work.pop()
                 budget = 4 if len(work) + len(inflight) < workers * 4 else 40
-                inflight.append(pool.apply_async(_work, ((p, budget, len(total.samples) < 6),)))
-            done = [r for r in inflight if r.ready()]
+                inflight.add(ex.submit(_work, (p, budget, len(total.samples) < 6)))
+            done, inflight = wait(inflight, timeout=5, return_when=FIRST_COMPLETED)
             if not done:
-                inflight[0].wait(0.02)
+                if time.time() - last_progress > stall_s:
+                    info["truncated"] = f"no task finished for {stall_s:.0f}s"
+                    total.errors.append(dict(status="error", err=info["truncated"], decisions=[]))
+                    break
                 continue
+            last_progress = time.time()
             for r in done:
-                inflight.remove(r)
-                a, rest = r.get()
+                try:
+                    a, rest = r.result()
+                except BrokenProcessPool as e:
+                    info["truncated"] = "a worker process died"
+                    total.errors.append(dict(status="error", err=f"worker process died: {e}", decisions=[]))
+                    work = []
+                    inflight = set()
+                    break
                 total.merge(a)
                 work.extend(rest)
         else:
             info["exhaustive"] = not total.errors
-        if info["truncated"]:
-            pool.terminate()
+    finally:
+        procs = list((getattr(ex, "_processes", None) or {}).values())
+        ex.shutdown(wait=False, cancel_futures=True)
+        for pr in procs:
+            try:
+                pr.terminate()
+            except Exception:
+                pass
     info["wall_s"] = time.time() - t0
     return total, info
 
